@@ -286,6 +286,10 @@ class G:
         if k == 7:
             return Obj([("$cond", Obj([("if", self.expr(depth + 1)), ("then", self.expr(depth + 1)), ("else", self.expr(depth + 1))]))])
         if k == 8:
+            if r.chance(1, 3):
+                # an extended-JSON binary as the operand of $literal: the class of `base64` and the kept `subType` hang on the
+                # PARENT key `$binary`, whatever encloses it
+                return Obj([("$literal", Obj([("$binary", Obj([("base64", self.b64()), ("subType", r.choice(["00", "04", "80"]))]))]))])
             return Obj([("$literal", self.scalar_lit())])
         return Obj([(r.choice(["$toUpper", "$abs", "$not"]), self.expr(depth + 1))])
 
